@@ -303,7 +303,22 @@ def gen_cases(rng, tier, boost=1):
           earlier = dict(earlier, **s['_symtab'])
       if any_expect(body):
         break
-    yield {'dom': 'dyn', 'units': units}
+    case = {'dom': 'dyn', 'units': units}
+    if rng.random() < 0.3:
+      # some functions and classes (nested ones too) were registered from Python before any file is parsed:
+      # nothing about names or bindings changes, and the config string still spells them by attribute path
+      mods = {i for _, i in w['modules']}
+      attrs = dict((k, dict(v)) for k, v in w['attrs'])
+      classes = CLASS_IDS(w)
+      direct = set()
+      for m in mods:
+        direct |= set(attrs.get(m, {}).values())
+      elig = sorted((direct - mods) | {c for c in classes})
+      case['_prereg'] = rng.sample(elig, rng.randint(1, min(3, len(elig))))
+      inner = name_to_id('c19pkg.m1:Cls.Inner')
+      if rng.random() < 0.6 and inner not in case['_prereg']:
+        case['_prereg'].append(inner)   # a class nested in a class: its printed name is its attribute path
+    yield case
 
 
 # scopes a reference may be written under (`@scope/ref()`); the model keeps the index
@@ -364,6 +379,8 @@ def run_impl(case):
   w, objs = get_world()
   tmp = tempfile.mkdtemp(prefix='c19-')
   texts, err, err_msg = [], None, None
+  for i in case.get('_prereg', []):
+    gin.register(objs[i])
   try:
     counter = [0]
     for u in case['units']:
